@@ -110,11 +110,12 @@ def design_for(e, w, style="proc", via_module=False):
     return {"bundles": {}, "exts": exts, "modules": mods, "top": "Top"}
 
 
-def family(tier):
+def items(tier):
     thorough = tier == "thorough"
     es = exprs(3, final_width=6) if thorough else exprs(2, final_width=6, all_spellings=True)
-    styles = ["proc", "class", "gen"]
-    out = []
-    for n, (e, v) in enumerate(es):
-        out.append((f"F1/{shape(e)}", design_for(e, len(v), styles[n % 3], via_module=(n % 2 == 1))))
-    return out
+    return [(e, len(v), n) for n, (e, v) in enumerate(es)]
+
+
+def design(desc):
+    e, w, n = desc
+    return f"F1/{shape(e)}", design_for(e, w, ["proc", "class", "gen"][n % 3], via_module=(n % 2 == 1))
